@@ -26,7 +26,8 @@ CONSTANTS
   DevNoUnmake,    \* TRUE = pinned tree: the abort path returns without unmake
   DevZeroBudget,  \* TRUE = pinned tree: a completed iteration is dropped when the budget is used up
   DevRootRepetition, \* TRUE = pinned tree: the repetition test also runs at the root of the search
-  DevStalePonder  \* TRUE = pinned tree: the ponder move is taken from whatever principal variation is stored, even from an earlier search
+  DevStalePonder, \* TRUE = pinned tree: the ponder move is taken from whatever principal variation is stored, even from an earlier search
+  DevPartialIteration \* TRUE = a seeded change: an interrupted iteration that has searched some root move is accepted like a completed one
 
 \* ---- toy game: positions 0..5, moves named by strings; position 5 has no legal move
 Moves == [p \in 0 .. 5 |->
@@ -60,6 +61,7 @@ VARIABLES
   stop, quit,\* flags
   timeup,    \* ghost: the time budget is exhausted (monotone)
   best,      \* best move of the last accepted iteration, or "none"
+  whole,     \* ghost: every iteration accepted in this search ran to its end (C09: the answer of an interrupted search is that of the last COMPLETED iteration)
   lastBest,  \* what was announced
   lastRoot,  \* ghost: position the search thread had been given when it announced
   given,     \* ghost: position of the last processed position command
@@ -69,14 +71,14 @@ VARIABLES
   lastPonderOf \* root position of the principal variation the announced ponder move was taken from (-1: no ponder move)
 
 gv == <<chan, gui, sent, answers, sentPos>>
-sv == <<mode, board, root, limit, iter, stack, phase, nodes, stop, quit, timeup, best, lastBest, lastRoot, given, pvOf, rep, rootCut, lastPonderOf>>
-vars == <<chan, gui, sent, answers, sentPos, mode, board, root, limit, iter, stack, phase, nodes, stop, quit, timeup, best, lastBest, lastRoot, given, pvOf, rep, rootCut, lastPonderOf>>
+sv == <<mode, board, root, limit, iter, stack, phase, nodes, stop, quit, timeup, best, whole, lastBest, lastRoot, given, pvOf, rep, rootCut, lastPonderOf>>
+vars == <<chan, gui, sent, answers, sentPos, mode, board, root, limit, iter, stack, phase, nodes, stop, quit, timeup, best, whole, lastBest, lastRoot, given, pvOf, rep, rootCut, lastPonderOf>>
 
 Init ==
   /\ chan = << >> /\ gui = "idle" /\ sent = 0 /\ answers = 0 /\ sentPos = 0
   /\ mode = "idle" /\ board = 0 /\ root = 0 /\ limit = "depth1" /\ iter = 0
   /\ stack = << >> /\ phase = "top" /\ nodes = 0 /\ stop = FALSE /\ quit = FALSE /\ timeup = FALSE
-  /\ best = "none" /\ lastBest = "none" /\ lastRoot = 0 /\ given = 0 /\ pvOf = -1 /\ lastPonderOf = -1 /\ rep = FALSE /\ rootCut = FALSE
+  /\ best = "none" /\ whole = TRUE /\ lastBest = "none" /\ lastRoot = 0 /\ given = 0 /\ pvOf = -1 /\ lastPonderOf = -1 /\ rep = FALSE /\ rootCut = FALSE
 
 \* ------------------------------------------------------------------ GUI (well-behaved)
 GuiPositionGo ==
@@ -111,14 +113,14 @@ IdleRecv ==
      /\ chan' = Tail(chan)
      /\ CASE m.t = "position" ->
                /\ board' = m.p /\ given' = m.p /\ rep' = m.rep
-               /\ UNCHANGED <<mode, root, limit, iter, stack, phase, nodes, stop, quit, timeup, best, lastBest, lastRoot, pvOf, rootCut, lastPonderOf>>
+               /\ UNCHANGED <<mode, root, limit, iter, stack, phase, nodes, stop, quit, timeup, best, whole, lastBest, lastRoot, pvOf, rootCut, lastPonderOf>>
           [] m.t = "go" ->      \* reset_for_go + go(): flags cleared, node counter reset
                /\ mode' = "search" /\ root' = board /\ limit' = m.l /\ iter' = 1
                /\ stack' = << [pos |-> board, idx |-> 1] >> /\ phase' = "enter"
-               /\ nodes' = 0 /\ stop' = FALSE /\ quit' = FALSE /\ timeup' = FALSE /\ best' = "none"
+               /\ nodes' = 0 /\ stop' = FALSE /\ quit' = FALSE /\ timeup' = FALSE /\ best' = "none" /\ whole' = TRUE
                /\ UNCHANGED <<board, lastBest, lastRoot, given, pvOf, rep, rootCut, lastPonderOf>>
           [] m.t = "quit" -> /\ mode' = "exit"
-               /\ UNCHANGED <<board, root, limit, iter, stack, phase, nodes, stop, quit, timeup, best, lastBest, lastRoot, given, pvOf, rep, rootCut, lastPonderOf>>
+               /\ UNCHANGED <<board, root, limit, iter, stack, phase, nodes, stop, quit, timeup, best, whole, lastBest, lastRoot, given, pvOf, rep, rootCut, lastPonderOf>>
           [] OTHER -> UNCHANGED sv      \* stop while idle is ignored
   /\ UNCHANGED <<gui, sent, answers, sentPos>>
 
@@ -149,7 +151,7 @@ EnterNode ==
                     ELSE /\ phase' = "loop" /\ UNCHANGED stack
                  /\ rootCut' = IF Ply = 0 THEN repLeaf ELSE rootCut
            /\ UNCHANGED board
-  /\ UNCHANGED <<gui, sent, answers, sentPos, mode, root, limit, iter, best, lastBest, lastRoot, given, pvOf, rep, lastPonderOf>>
+  /\ UNCHANGED <<gui, sent, answers, sentPos, mode, root, limit, iter, best, whole, lastBest, lastRoot, given, pvOf, rep, lastPonderOf>>
 
 \* for mv in buffer: make(mv); recurse
 Descend ==
@@ -157,7 +159,7 @@ Descend ==
   /\ board' = Moves[Top.pos][Top.idx][2]                                  \* make
   /\ stack' = Append(stack, [pos |-> Moves[Top.pos][Top.idx][2], idx |-> 1])
   /\ phase' = "enter"
-  /\ UNCHANGED <<chan, gui, sent, answers, sentPos, mode, root, limit, iter, nodes, stop, quit, timeup, best, lastBest, lastRoot, given, pvOf, rep, rootCut, lastPonderOf>>
+  /\ UNCHANGED <<chan, gui, sent, answers, sentPos, mode, root, limit, iter, nodes, stop, quit, timeup, best, whole, lastBest, lastRoot, given, pvOf, rep, rootCut, lastPonderOf>>
 
 \* the child returned
 ReturnFromChild ==
@@ -169,13 +171,13 @@ ReturnFromChild ==
      ELSE /\ board' = Top.pos                                               \* unmake
           /\ stack' = [stack EXCEPT ![Len(stack)].idx = @ + 1]
           /\ phase' = "loop"
-  /\ UNCHANGED <<chan, gui, sent, answers, sentPos, mode, root, limit, iter, nodes, stop, quit, timeup, best, lastBest, lastRoot, given, pvOf, rep, rootCut, lastPonderOf>>
+  /\ UNCHANGED <<chan, gui, sent, answers, sentPos, mode, root, limit, iter, nodes, stop, quit, timeup, best, whole, lastBest, lastRoot, given, pvOf, rep, rootCut, lastPonderOf>>
 
 \* all children searched
 NodeDone ==
   /\ mode = "search" /\ phase = "loop" /\ Top.idx > Len(Moves[Top.pos])
   /\ stack' = Pop /\ phase' = IF Len(stack) = 1 THEN "top" ELSE "ret"
-  /\ UNCHANGED <<chan, gui, sent, answers, sentPos, mode, board, root, limit, iter, nodes, stop, quit, timeup, best, lastBest, lastRoot, given, pvOf, rep, rootCut, lastPonderOf>>
+  /\ UNCHANGED <<chan, gui, sent, answers, sentPos, mode, board, root, limit, iter, nodes, stop, quit, timeup, best, whole, lastBest, lastRoot, given, pvOf, rep, rootCut, lastPonderOf>>
 
 \* back in best_move(): accept or reject the iteration, maybe go deeper, else announce
 DepthLimit == IF limit = "depth1" THEN 1 ELSE MaxIter
@@ -185,11 +187,14 @@ FinishIteration ==
        LET hasMove == Len(Moves[root]) > 0
            aborted == stop \/ ~hasMove \/ rootCut
            tl == tooLittle \/ timeup
-           accept == IF DevZeroBudget THEN ~(aborted \/ tl) ELSE ~aborted
+           accept == IF DevZeroBudget THEN ~(aborted \/ tl)
+                     ELSE IF DevPartialIteration THEN (~aborted \/ (stop /\ hasMove /\ ~rootCut))
+                     ELSE ~aborted
            done == aborted \/ tl \/ (limit # "infinite" /\ iter >= DepthLimit)
        IN
        /\ \E mv \in (IF accept THEN LegalOf(board) ELSE {best}) :
             /\ best' = mv
+            /\ whole' = IF accept THEN (whole /\ ~aborted) ELSE whole
             /\ pvOf' = IF accept THEN root ELSE pvOf          \* an accepted iteration replaces the stored principal variation
             /\ IF done
                THEN /\ mode' = IF quit THEN "exit" ELSE "idle"
@@ -224,6 +229,8 @@ AnswerLegal == (sent > 0 /\ answers = 1) =>
                  /\ (LegalOf(lastRoot) = {} => lastBest = "none")
 \* C16: an announced ponder move comes from the principal variation of the search that is being answered
 PonderFresh == (sent > 0 /\ answers = 1) => lastPonderOf \in {-1, lastRoot}
+\* C09: what is announced was produced by iterations that ran to their end
+WholeIterations == whole
 \* liveness: every go is eventually answered (infinite needs a stop, which WF on GuiStop provides)
 Answered == (gui = "waiting") ~> (gui # "waiting")
 
